@@ -11,6 +11,11 @@ package chunk
 //   record                 : runs of every splitter FromString can build over random / constant /
 //                            periodic inputs under 6 read-fragmentation patterns, logged as NDJSON for
 //                            TraceChunker.
+//                            Every chunk ever returned is KEPT (session, c06Session) across runs,
+//                            inputs and splitter kinds and re-compared with the input range it was
+//                            cut from after every later run (Check events); a few rounds run several
+//                            live instances of neighbouring kinds with randomly interleaved NextBytes.
+//                            The fragmentation replay keeps the chunks of all earlier scripts too.
 // Projection (trusted): chunk -> its length + `eq` (bytes equal to the next input range);
 // splitter -> (kind, min, max) read from its fields; spec string -> sequence of 1-char strings.
 
@@ -39,6 +44,67 @@ func TestVerifC06(t *testing.T) {
 	default:
 		t.Skip("no VERIF_MODE")
 	}
+}
+
+// ---------------------------------------------------------------- the consumer's session
+
+// c06Kept is a chunk the consumer holds on to, with the input range it was cut from.
+type c06Kept struct {
+	b, src []byte
+	bad    bool // found different from src at some comparison (sticky)
+	who    string
+}
+
+// c06Session keeps every chunk handed out by any splitter instance until drop().
+type c06Session struct {
+	kept     []c06Kept
+	bytes    int
+	runs     int
+	firstBad string
+}
+
+func (s *c06Session) keep(b, src []byte, who string) {
+	s.kept = append(s.kept, c06Kept{b: b, src: src, who: who})
+	s.bytes += len(b)
+}
+
+// recheck compares every kept chunk with its source range.
+func (s *c06Session) recheck(when string) { s.recheckFrom(0, when) }
+
+func (s *c06Session) recheckFrom(from int, when string) {
+	for i := from; i < len(s.kept); i++ {
+		k := &s.kept[i]
+		if !k.bad && (k.src == nil || !bytes.Equal(k.b, k.src)) {
+			k.bad = true
+			if s.firstBad == "" {
+				s.firstBad = fmt.Sprintf("kept chunk #%d (%s, %d bytes) no longer equals its input range %s", i, k.who, len(k.b), when)
+			}
+		}
+	}
+}
+
+// intact returns count and bytes of the kept chunks that were equal at every comparison.
+func (s *c06Session) intact() (n, nb int) {
+	for i := range s.kept {
+		if !s.kept[i].bad {
+			n++
+			nb += len(s.kept[i].b)
+		}
+	}
+	return
+}
+
+func (s *c06Session) drop() { s.kept, s.bytes, s.runs = nil, 0, 0 }
+
+// wantDrop: the retained bytes/chunks are bounded (cost of the re-comparisons), but never before
+// at least two runs are held together.
+func (s *c06Session) wantDrop(maxBytes, maxChunks int) bool {
+	return s.runs >= 2 && (s.bytes > maxBytes || len(s.kept) > maxChunks)
+}
+
+func (s *c06Session) checkEvent() M {
+	n, nb := s.intact()
+	return M{"ev": "Check", "n": n, "bytes": nb, "kept": len(s.kept), "keptbytes": s.bytes, "bad": s.firstBad}
 }
 
 // ---------------------------------------------------------------- G: fragmentation scripts
@@ -136,6 +202,8 @@ func c06NextBytes(sp Splitter) (b []byte, err error) {
 func c06ReplayFrag(t *testing.T) {
 	n, desyncs := 0, 0
 	var firstDesync string
+	sess := &c06Session{} // the chunks of ALL scripts replayed so far stay with the consumer
+	staleReports := 0     // (one changed chunk is reported once; at most 20 reports)
 	for i, raw := range vIn() {
 		var b c06Beh
 		if err := json.Unmarshal(raw, &b); err != nil {
@@ -170,6 +238,8 @@ func c06ReplayFrag(t *testing.T) {
 					fail = fmt.Sprintf("NextBytes: chunk of %d bytes, expected %d", len(chunk), e.N)
 				} else if off+e.N > len(rd.data) || !bytes.Equal(chunk, rd.data[off:off+e.N]) {
 					fail = fmt.Sprintf("NextBytes: chunk at offset %d differs from the input", off)
+				} else {
+					sess.keep(chunk, rd.data[off:off+e.N], fmt.Sprintf("script %d offset %d", i, off))
 				}
 				off += e.N
 			case "X":
@@ -177,6 +247,13 @@ func c06ReplayFrag(t *testing.T) {
 					fail = fmt.Sprintf("NextBytes: (%d bytes, %v), expected io.EOF", len(chunk), err)
 				}
 			}
+		}
+		// specification: chunks are the consumer's; no later NextBytes / splitter instance changes them
+		sess.firstBad = ""
+		sess.recheck(fmt.Sprintf("after script %d", i))
+		if fail == "" && sess.firstBad != "" && staleReports < 20 {
+			fail, step = sess.firstBad, len(b.Ev)
+			staleReports++
 		}
 		if rd.desync != "" {
 			desyncs++
@@ -414,14 +491,80 @@ func c06Chars(s string) []string {
 	return r
 }
 
+// c06Inst is one live splitter instance over its own fragmenting reader.
+type c06Inst struct {
+	sp    Splitter
+	rd    *c06Frag
+	data  []byte
+	who   string
+	off   int
+	ends  int
+	steps int
+	done  bool
+	ev    []M
+}
+
+func c06NewInst(spec string, data []byte, mode string, seed int64, who string) (*c06Inst, string) {
+	rd := &c06Frag{data: data, mode: mode, rng: rand.New(rand.NewSource(seed))}
+	sp, oc, _ := c06Build(rd, spec)
+	if oc != "accept" {
+		return nil, oc
+	}
+	return &c06Inst{sp: sp, rd: rd, data: data, who: who}, oc
+}
+
+// step = one NextBytes call; the event is appended to in.ev, the chunk goes to the session.
+func (in *c06Inst) step(sess *c06Session) {
+	if in.done {
+		return
+	}
+	if in.steps >= 3*c06MaxChunksPerRun {
+		in.ev = append(in.ev, M{"ev": "Error", "what": "run did not reach io.EOF twice"})
+		in.done = true
+		return
+	}
+	in.steps++
+	b, err := c06NextBytes(in.sp)
+	if err != nil {
+		if errors.Is(err, io.EOF) && len(b) == 0 {
+			in.ev = append(in.ev, M{"ev": "End", "rpos": in.rd.pos})
+			in.ends++
+			in.done = in.ends >= 2
+			return
+		}
+		in.ev = append(in.ev, M{"ev": "Error", "what": err.Error(), "n": len(b)})
+		in.done = true
+		return
+	}
+	var src []byte
+	if in.off+len(b) <= len(in.data) {
+		src = in.data[in.off : in.off+len(b)]
+	}
+	eq := src != nil && bytes.Equal(b, src)
+	in.ev = append(in.ev, M{"ev": "Emit", "n": len(b), "rpos": in.rd.pos, "eq": eq})
+	sess.keep(b, src, fmt.Sprintf("%s offset %d", in.who, in.off))
+	in.off += len(b)
+}
+
+type c06Accepted struct {
+	spec     string
+	kind     string
+	min, max int64
+}
+
 func c06Record(t *testing.T) {
 	rng := vRand()
 	bigMax := 4 << 20
+	mixRounds := 8
 	if !vQuick() {
 		bigMax = 8 << 20
 	} else {
 		c06MaxChunksPerRun = 48
+		mixRounds = 3
 	}
+	sess := &c06Session{}
+	const keepBytes, keepChunks = 6 << 20, 4096
+	var accepted []c06Accepted
 	for i, raw := range vIn() {
 		var in struct {
 			Spec string `json:"spec"`
@@ -440,6 +583,7 @@ func c06Record(t *testing.T) {
 			continue
 		}
 		kind, mn, mx, _ := c06Inspect(sp, 0)
+		accepted = append(accepted, c06Accepted{spec, kind, mn, mx})
 		// input lengths (coverage only): boundaries of the real min/max, a multi-chunk input, big inputs
 		lo, hi := int(mn), int(mx)
 		if lo < 1 {
@@ -460,36 +604,34 @@ func c06Record(t *testing.T) {
 		}
 		nIn := 0
 		runInput := func(data []byte) {
-			vEmit(M{"ev": "Input", "spec": c06Chars(spec), "L": len(data), "kind": kind, "min": mn, "max": mx, "content": nIn % 3})
+			drop := sess.wantDrop(keepBytes, keepChunks)
+			if drop {
+				sess.drop()
+			}
+			vEmit(M{"ev": "Input", "spec": c06Chars(spec), "L": len(data), "kind": kind, "min": mn, "max": mx, "content": nIn % 3, "drop": drop})
 			nIn++
 			for _, mode := range c06Modes {
-				rd := &c06Frag{data: data, mode: mode, rng: rand.New(rand.NewSource(rng.Int63()))}
-				s2, oc, _ := c06Build(rd, spec)
-				if oc != "accept" {
+				drop := sess.wantDrop(keepBytes, keepChunks)
+				if drop {
+					sess.drop()
+				}
+				inst, oc := c06NewInst(spec, data, mode, rng.Int63(), fmt.Sprintf("%q L=%d %s", spec, len(data), mode))
+				if inst == nil {
 					vEmit(M{"ev": "Error", "what": "FromString changed its mind: " + oc})
 					return
 				}
-				vEmit(M{"ev": "Run", "frag": mode})
-				off, ends := 0, 0
-				for k := 0; k < 3*c06MaxChunksPerRun && ends < 2; k++ {
-					b, err := c06NextBytes(s2)
-					if err != nil {
-						if errors.Is(err, io.EOF) && len(b) == 0 {
-							vEmit(M{"ev": "End", "rpos": rd.pos})
-							ends++
-							continue
-						}
-						vEmit(M{"ev": "Error", "what": err.Error(), "n": len(b)})
-						break
-					}
-					eq := off+len(b) <= len(data) && bytes.Equal(b, data[off:off+len(b)])
-					vEmit(M{"ev": "Emit", "n": len(b), "rpos": rd.pos, "eq": eq})
-					off += len(b)
+				vEmit(M{"ev": "Run", "frag": mode, "drop": drop})
+				for !inst.done {
+					inst.step(sess)
 				}
-				if ends < 2 {
-					vEmit(M{"ev": "Error", "what": "run did not reach io.EOF twice"})
+				for _, e := range inst.ev {
+					vEmit(e)
 				}
+				sess.runs++
+				// everything the consumer holds (this run, earlier runs, earlier inputs, other kinds) is re-read
+				sess.recheck(fmt.Sprintf("after the run %s", inst.who))
 			}
+			vEmit(sess.checkEvent())
 		}
 		for j, l := range lens {
 			runInput(c06Content(j+i, l, rng))
@@ -502,4 +644,113 @@ func c06Record(t *testing.T) {
 			}
 		}
 	}
+	// ---- concurrently live instances: per round three specifications (a random one, the one with the
+	// nearest maximum -- the most likely to share buffers -- and another random one); per specification
+	// one input, chunked once alone and by two more instances whose NextBytes calls are interleaved at
+	// random with those of all the other live instances.  Everything kept is re-read after every call.
+	pendingDrop := false
+	for round := 0; round < mixRounds && len(accepted) > 0; round++ {
+		pick := []c06Accepted{accepted[rng.Intn(len(accepted))]}
+		best := -1
+		for k, a := range accepted {
+			if a.spec == pick[0].spec || a.max <= 0 || a.max > 4<<20 {
+				continue
+			}
+			d := func(x c06Accepted) int64 {
+				v := x.max - pick[0].max
+				if v < 0 {
+					v = -v
+				}
+				if x.kind == pick[0].kind {
+					v += 1 // prefer another kind at equal distance
+				}
+				return v
+			}
+			if best < 0 || d(a) < d(accepted[best]) {
+				best = k
+			}
+		}
+		if best >= 0 {
+			pick = append(pick, accepted[best])
+		}
+		pick = append(pick, accepted[rng.Intn(len(accepted))])
+		type pair struct {
+			a    c06Accepted
+			data []byte
+			runs []*c06Inst
+			mode []string
+		}
+		var pairs []*pair
+		var live []*c06Inst
+		if sess.wantDrop(keepBytes, keepChunks) {
+			sess.drop() // (logged on the next Input)
+			pendingDrop = true
+		}
+		roundStart := len(sess.kept)
+		for pi, a := range pick {
+			lo, hi := int(a.min), int(a.max)
+			if lo < 1 {
+				lo = 1
+			}
+			if hi < 1 || hi > 4<<20 {
+				hi = 1
+			}
+			l := hi + rng.Intn(3*hi+1)
+			if l > 5<<18 {
+				l = 5<<18 - rng.Intn(1<<16)
+			}
+			if l/lo > c06MaxChunksPerRun {
+				l = lo * c06MaxChunksPerRun
+			}
+			p := &pair{a: a, data: c06Content(rng.Intn(3), l, rng)}
+			if c := c06Count(a.spec, p.data, 64); c < 0 || c > 64 {
+				continue
+			}
+			// alone first (fixes the cuts of this input)
+			solo, _ := c06NewInst(a.spec, p.data, "whole", rng.Int63(), fmt.Sprintf("round %d #%d %q L=%d alone", round, pi, a.spec, l))
+			if solo == nil {
+				continue
+			}
+			for !solo.done {
+				solo.step(sess)
+			}
+			sess.runs++
+			sess.recheck("after the run " + solo.who)
+			p.runs, p.mode = append(p.runs, solo), append(p.mode, "whole")
+			for k := 0; k < 2; k++ {
+				mode := c06Modes[rng.Intn(len(c06Modes))]
+				in, _ := c06NewInst(a.spec, p.data, mode, rng.Int63(), fmt.Sprintf("round %d #%d.%d %q L=%d %s interleaved", round, pi, k, a.spec, l, mode))
+				if in == nil {
+					continue
+				}
+				p.runs, p.mode = append(p.runs, in), append(p.mode, mode)
+				live = append(live, in)
+			}
+			pairs = append(pairs, p)
+		}
+		for len(live) > 0 {
+			k := rng.Intn(len(live))
+			live[k].step(sess)
+			sess.recheckFrom(roundStart, "after a NextBytes of "+live[k].who)
+			if live[k].done {
+				sess.runs++
+				live = append(live[:k], live[k+1:]...)
+			}
+		}
+		// the runs, projected per instance
+		for _, p := range pairs {
+			vEmit(M{"ev": "Input", "spec": c06Chars(p.a.spec), "L": len(p.data), "kind": p.a.kind, "min": p.a.min, "max": p.a.max, "content": 0, "drop": pendingDrop, "mix": round})
+			pendingDrop = false
+			for k, in := range p.runs {
+				vEmit(M{"ev": "Run", "frag": p.mode[k], "drop": false, "mix": round})
+				for _, e := range in.ev {
+					vEmit(e)
+				}
+			}
+		}
+		sess.recheck(fmt.Sprintf("at the end of round %d", round))
+		vEmit(sess.checkEvent())
+	}
+	sess.recheck("at the end of the session")
+	vEmit(sess.checkEvent())
 }
